@@ -841,12 +841,12 @@ def save(tensor, path):
         raise InvalidArguments("First argument must be a torchtt.TT instance.")
 
     if tensor.is_ttm:
-        dct = {"is_ttm": tensor.is_ttm, "R": tensor.R,
-               "M": tensor.M, "N": tensor.N, "cores": tensor.cores}
+        dct = {"is_ttm": tensor.is_ttm, "R": [int(r) for r in tensor.R],
+               "M": [int(m) for m in tensor.M], "N": [int(n) for n in tensor.N], "cores": tensor.cores}
         tn.save(dct, path)
     else:
-        dct = {"is_ttm": tensor.is_ttm, "R": tensor.R,
-               "N": tensor.N, "cores": tensor.cores}
+        dct = {"is_ttm": tensor.is_ttm, "R": [int(r) for r in tensor.R],
+               "N": [int(n) for n in tensor.N], "cores": tensor.cores}
         tn.save(dct, path)
 
 
